@@ -532,3 +532,47 @@ def c03(tier, seed):
                            "target_cancel-before-start", "target_cancel-while-running", "target_block-first",
                            "join_issued_before-start", "join_issued_while-running", "join_issued_after-termination"]
     return c
+
+
+BLOCK_HAMMER = ("SUSPEND_BEFORE_BLOCKED", "SUSPEND_AFTER_BLOCKED", "RESUME_AFTER_PUSH", "SCHED_STOP_AFTER_SIZE",
+                "MAIN_SCHED_AFTER_RUN", "YIELD_SAVED", "POP_NONEMPTY_SEEN")
+
+
+@prop("C06")
+def c06(tier, seed):
+    c = Check("C06", tier, seed)
+    q = tier == "quick"
+    c.rule = ("block case = one scenario: random configuration (2-4 streams, private pools, every non-stealing scheduler), "
+              "1-47 ULTs in the pool that only the victim stream schedules (or in a stacked scheduler's pool on it, or unnamed "
+              "in the primary's pool), each with 1-4 blocking steps (eventual, cond, ABT_self_suspend, mutex, yield); when "
+              "all are blocked the blocked counter must equal their number; then ABT_xstream_join / ABT_finalize is issued "
+              "and an external thread wakes them 0.2-3 ms later (resuming a suspended ULT the moment BLOCKED is observable); "
+              "a sampler thread reads the counter continuously (never negative); forest case = a C01 program (xstream_join "
+              "and finalize complete pending unnamed units); distinct = distinct (variant, delay, configuration x scenario "
+              "variant x size-class signature)")
+    c.assumptions = ["the blocked counter is read white-box (p_pool->num_blocked) from the statically linked harness and via "
+                     "ABT_pool_get_total_size - ABT_pool_get_size"]
+    profiles = [hammer(*BLOCK_HAMMER), "uniform", "off", "heavy"]
+    for i, s in enumerate(seeds(seed, 6 if q else 48)):
+        args = ["--seed", s, "--mode", "block", "--scenarios", 50 if q else 400, "--delay", profiles[i % 4],
+                "--watchdog", 90 if q else 900]
+        if i % 3 == 2:
+            args += ["--squeeze", 2]
+        c.add(Run("h_units", "mon", args, weight=4, tag="block%d" % i))
+    for i, s in enumerate(seeds(seed, 1 if q else 5, salt=1)):
+        c.add(Run("h_units", "asan", ["--seed", s, "--mode", "block", "--scenarios", 20, "--delay", profiles[i % 4],
+                                      "--watchdog", 90], weight=4, tag="asan%d" % i))
+    for i, s in enumerate(seeds(seed, 1 if q else 5, salt=2)):
+        c.add(Run("h_units", "tsan", ["--seed", s, "--mode", "block", "--scenarios", 8, "--delay", profiles[i % 4],
+                                      "--watchdog", 90], weight=4, tag="tsan%d" % i))
+    for i, s in enumerate(seeds(seed, 2 if q else 12, salt=3)):
+        c.add(Run("h_units", "mon", ["--seed", s, "--mode", "forest", "--programs", 12 if q else 40, "--max-units", 500,
+                                     "--delay", profiles[i % 4], "--watchdog", 60 if q else 400], weight=6,
+                  tag="forest%d" % i))
+    c.nontrivial = lambda r: True
+    c.required_counters = ["block_scenarios", "blocked_on_eventual", "blocked_on_cond", "self_suspended", "blocked_on_mutex",
+                           "xstream_join_issued_with_blocked_units", "finalize_issued_with_blocked_units",
+                           "blocked_counter_samples", "blocked_counter_exact_checks", "stacked_scheduler_variants",
+                           "units_checked_at_xstream_join"]
+    c.required_points = ["SUSPEND_AFTER_BLOCKED", "RESUME_AFTER_PUSH", "SCHED_STOP_AFTER_SIZE"]
+    return c
